@@ -54,6 +54,8 @@ def rebind(original, replacement):
 
 
 _INSTALLED = {}   # (module name, attr) -> (original, wrapper)
+PASSTHROUGH = [False]   # True while several threads call the library: the monitors' bookkeeping (activation depth, caches, counters) is
+                        # single-threaded, so wrappers hand calls straight through and the thread phase is judged by value comparison
 HARNESS_ERRORS = []
 
 
@@ -86,6 +88,8 @@ def watch(modname, attr, monitor, handler, outermost_only=True):
 
     @functools.wraps(func)
     def wrapper(*a, **k):
+        if PASSTHROUGH[0]:
+            return func(*a, **k)
         depth[0] += 1
         try:
             try:
